@@ -446,7 +446,8 @@ def _run_form(case):
     key = dict(elemType=et, dof_n=dof_n, form=form)
     Ndof = g.Ncoords * dof_n
     if form == "linear":
-        F = LinearForm(lambda v: 1.5 * v) if dof_n == 1 else LinearForm(lambda v: 1.5 * v)
+        fvec = np.array([0.7, -1.2, 0.4])[:dof_n]
+        F = LinearForm(lambda v: 1.5 * v) if dof_n == 1 else LinearForm(lambda v: v.dot(fvec))
         data = np.asarray(F.Integrate_e(field))
         ref = np.zeros((Ndof, 1))
         con = g.connect
